@@ -411,8 +411,15 @@ func (e *Eval) compile(node ast.Node) error {
 		// value, and no clean termination.  Instead we'd walk
 		// off the end of our bytecode array.
 		//
-		if len(e.instructions) == 0 ||
-			code.Opcode(e.instructions[len(e.instructions)-1]) != code.OpReturn {
+		// Note we look at the last instruction, not the last byte:
+		// the final byte might be (part of) an operand that happens
+		// to have the same value as the return opcode.
+		last := code.OpNop
+		for ip := 0; ip < len(e.instructions); {
+			last = code.Opcode(e.instructions[ip])
+			ip += code.Length(last)
+		}
+		if len(e.instructions) == 0 || last != code.OpReturn {
 			e.emit(code.OpVoid)
 			e.emit(code.OpReturn)
 		}
